@@ -9,7 +9,9 @@
 package main
 
 import (
+	"encoding/binary"
 	"fmt"
+	"io"
 	"math/rand"
 	"net"
 	"os"
@@ -556,6 +558,82 @@ func stormCase(c *core.Ctx, code byte, trial int) {
 	}
 }
 
+// pipelinedCase: a client writes several request frames at once (one Write), as a pipelining client or a proxy that
+// coalesces does.  Every one of them is a request received by the agent: a client waiting on the code of the second
+// or third frame is released, whatever kind of request came before it on the same connection.
+func pipelinedCase(c *core.Ctx, first, code byte, third bool) {
+	w, err := newWorld()
+	if err != nil {
+		c.Native("cannot start the yubiagent server: "+err.Error(), nil)
+		return
+	}
+	defer w.close()
+	input := map[string]interface{}{"first_frame_code": first, "waited_code": code, "three_frames": third}
+	_, raw, err := w.connect()
+	if err != nil {
+		c.Native("cannot connect: "+err.Error(), input)
+		return
+	}
+	wcl, _, err := w.connect()
+	if err != nil {
+		c.Native("cannot connect: "+err.Error(), input)
+		return
+	}
+	done := make(chan error, 1)
+	go func() { done <- wcl.Wait(code) }()
+	deadline := time.Now().Add(2 * time.Second)
+	for w.shim.VerifWaiters(code) < 1 && time.Now().Before(deadline) {
+		time.Sleep(100 * time.Microsecond)
+	}
+	if w.shim.VerifWaiters(code) < 1 {
+		c.Native("a Wait call did not park within two seconds", input)
+		return
+	}
+	frame := func(b []byte) []byte {
+		f := make([]byte, 4+len(b))
+		binary.BigEndian.PutUint32(f, uint32(len(b)))
+		copy(f[4:], b)
+		return f
+	}
+	body := func(code byte) []byte {
+		if b := wfBody(code, 1); b != nil {
+			return b
+		}
+		return []byte{code, 0, 0, 0, 0}
+	}
+	stream := append(frame(body(first)), frame(body(code))...)
+	nframes := 2
+	if third {
+		stream = append(frame(body(first)), stream...)
+		nframes = 3
+	}
+	go func() { _, _ = raw.Write(stream) }()
+	// read the replies so that the server is never blocked on a write
+	go func() {
+		var hdr [4]byte
+		for i := 0; i < nframes; i++ {
+			raw.SetReadDeadline(time.Now().Add(3 * time.Second))
+			if _, err := io.ReadFull(raw, hdr[:]); err != nil {
+				return
+			}
+			n := binary.BigEndian.Uint32(hdr[:])
+			if n > 1<<20 {
+				return
+			}
+			if _, err := io.ReadFull(raw, make([]byte, n)); err != nil {
+				return
+			}
+		}
+	}()
+	select {
+	case <-done:
+		c.NativeCheck(1)
+	case <-time.After(3 * time.Second):
+		c.Native(fmt.Sprintf("a client waiting on code %d was not released by a request with that code that arrived in one write behind a request with code %d", code, first), input)
+		_ = w.shim.Broadcast(code)
+	}
+}
+
 // twoAgentsCase: two agents live in one process.  A client waiting on a code of the first is released only by a request
 // received by the first agent - a request with the same code received by the second one does not concern it.
 func twoAgentsCase(c *core.Ctx, code byte) {
@@ -779,6 +857,11 @@ func runC20(c *core.Ctx) {
 	}
 
 	// a request arriving while other clients register on the same code
+	// several frames in one write: each of them is a request received
+	for i, pr := range [][2]byte{{11, 19}, {11, 11}, {19, 13}, {13, 18}, {32, 19}, {11, 32}, {27, 11}, {18, 17}, {25, 25}, {11, 35}, {22, 23}} {
+		pipelinedCase(c, pr[0], pr[1], i%3 == 2)
+	}
+
 	for t, n := 0, c.N(12, 120); t < n; t++ {
 		stormCase(c, core.Pick(r, byte(11), byte(13), byte(39), byte(0)), t)
 	}
